@@ -445,7 +445,7 @@ PROPS["C11"] = {
              "pending LockId, re-entrant requests, clock seconds, hold/release phases with the record file or the value file closed "
              "under the writer, ack waits timed out while parked; buffer sizes 64/128/4096, 1..4 shards, 1..3 clients. Layer 2 (leader "
              "+ 1..2 followers in one process behind a harness proxy, ack mode all/majority): follower ack frames stalled, then passed, "
-             "negated or dropped with a connection cut; leader demotion; timeouts. Oracle: SUCCED only when a LOCK record of that "
+             "negated or dropped with a connection cut; the leader's own flush parked (parkflush) while follower frames pass; leader demotion; timeouts. Oracle: SUCCED only when a LOCK record of that "
              "key/LockId is in the leader's append files (read in the reply callback) and, cluster, the proxies have already forwarded "
              "the required number of positive ack frames; while pending every request for the LockId gets LOCK_ACK_WAITING and changes "
              "nothing (snapshot equal); reply-driven ledger == in-package snapshot at every stable point (acknowledged hold is a normal "
@@ -462,6 +462,8 @@ PROPS["C11"] = {
         "a lock request for a LockId that is still queued is skipped (two holds of one LockId: C02 domain)",
         "cluster: followers join before the workload, no reconnect after a cut, no log rotation (join/transfer races belong to C09); leader clock starts at the wall clock",
         "cluster: the positive-frame requirement is computed from the followers still connected at reply time (lower bound of the registered count)",
+        "parkflush = the harness adds one to Aof.channelActiveCount (another shard's writer busy), so records are buffered, registered and replicated but not written until unparkflush",
+        "cluster verdicts are printed only if the same case fails with the same key on re-execution (<=3); others are saved as unreproduced anomalies",
         "while listed findings are open: no re-entrant ack request, no never-persist flag, buffer 4096 when a write fault is drawn, value operations whose undo is inexact in the current state are replaced by SET, demotion is executed with the mutex released around updateState, a LOCKED_ERROR after the TIMEOUT of an ack wait is counted as known hit (all counted in evidence)",
     ],
     "units": [
